@@ -33,14 +33,18 @@ PIPE = {"name": "user", "priority": 10, "transformations": [
     {"id": "boom", "type": "rule_failure", "message": "x", "rule_conditions": [{"type": "logsource", "category": "fail"}]},
     {"id": "after", "type": "field_name_suffix", "suffix": "_S", "rule_conditions": [{"type": "processing_state", "key": "k", "val": "KV"}],
      "field_name_conditions": [{"type": "include_fields", "fields": ["g"]}]},
-], "postprocessing": [{"id": "pp", "type": "template", "template": "{{ query }} /post:k={{ pipeline.state.get('k') }},bk={{ pipeline.state.get('bk') }},applied={{ pipeline.applied_ids|sort|join('+') }}"}]}
+], "postprocessing": [{"id": "pp", "type": "template", "template": "{{ query }} /post:k={{ pipeline.state.get('k') }},bk={{ pipeline.state.get('bk') }},applied={{ pipeline.applied_ids|sort|join('+') }}"},
+                      # items that keep parsed templates / compiled data on the item object: every rule must get its own query embedded
+                      {"id": "js", "type": "json", "json_template": "{\"q\": \"%QUERY%\", \"nested\": [{\"again\": \"%QUERY%\"}], \"n\": 1}"},
+                      {"id": "em", "type": "embed", "prefix": "<<", "suffix": ">>"}]}
 BACKEND_PIPE = {"name": "backend", "priority": 1, "transformations": [{"id": "bst", "type": "set_state", "key": "bk", "val": "BV"}]}
 
 
 def rule_doc(kind, i=0):
     cat = {"state": "withstate", "pipefail": "fail"}.get(kind, "c")
     d = {"title": f"{kind}{i}", "logsource": {"category": cat}, "detection": {"sel": {"fieldA": f"v{i}", "g": 1}, "flt": {"h": f"x{i}"}, "condition": "sel and not flt"}}
-    if kind == "casedprobe": d["detection"] = {"sel": {"fieldA|cased|contains": f"Ab{i}", "fieldB|cased|startswith": "Cd", "fieldC|cased|endswith": "Ef", "g": 1},
+    if kind == "casedprobe": d["detection"] = {"sel": {"fieldA|cased|contains": f"Ab{i}", "fieldB|cased|startswith": "Cd", "fieldC|cased|endswith": "Ef", "g": 1,
+                                                       "fieldD|contains": f"mid{i}", "fieldE|startswith": "head", "fieldF|endswith": "tail", "fieldG|re": "x+y", "fieldH": None},
                                                "flt": {"h": f"x{i}"}, "condition": "sel and not flt"}
     if kind == "placeholder": d["detection"]["sel"]["fieldA|expand"] = "%nope%"; del d["detection"]["sel"]["fieldA"]
     if kind == "badvalue": d["detection"]["kw"] = [True]; d["detection"]["condition"] = "sel and kw"
